@@ -90,7 +90,7 @@ def step(x, kind, P, k):
     raise ValueError(kind)
 
 
-READ_PROBES = ["nonzero_m", "rowlist", "ellipsis", "emptytuple", "read", "shape", "rowint", "elem", "rowslice", "colslice", "colrev", "ufunc", "rowsum", "iter", "tolist", "nonzero",
+READ_PROBES = ["size_rowsum", "size_colsum", "size_cumsum", "repr_rowsum", "nonzero_m", "rowlist", "ellipsis", "emptytuple", "read", "shape", "rowint", "elem", "rowslice", "colslice", "colrev", "ufunc", "rowsum", "iter", "tolist", "nonzero",
                "colint", "rowcolint", "maskidx", "colvals", "colsum", "colcounts", "padded", "padded_left", "unique", "cumsum", "concat", "where", "rslice", "any", "max"]
 WRITE_PROBES = ["set_row", "set_col", "set_all"]
 
@@ -139,6 +139,13 @@ def probe(d, kind, P):
         return np.nonzero(d)
     if kind == "nonzero_m":
         return d.nonzero()
+    if kind in ("size_rowsum", "size_colsum", "size_cumsum", "repr_rowsum"):
+        # two reads in a row: what the first one leaves behind (a cached size, a materialised buffer) must not change the second
+        first = d.size if kind.startswith("size") else repr(d)
+        if kind == "size_colsum" and d.size == 0:
+            return ("precondition not met",)
+        second = d.sum(axis=-1) if kind.endswith("rowsum") else d.sum(axis=0) if kind.endswith("colsum") else np.cumsum(d, axis=-1)
+        return (first if kind.startswith("size") else 0, second, d)
     if kind == "rowlist":
         if n == 0:
             return ("precondition not met",)
@@ -235,11 +242,13 @@ def ref_view_rows(rows, kind, P, k="v0", conc=int):
     return [r[sl] for r in rows]
 
 
-def on_view(RaggedArray, lens, data, dtype, pre, op_fn, P, conc=int):
+def on_view(RaggedArray, lens, data, dtype, pre, op_fn, P, conc=int, preread=None):
     """op_fn applied to d = pre(a) and to a freshly built array holding the rows pre selects (computed on plain lists; `lens` is concrete);
     returns (obs of op(d), obs of op(fresh), a after)"""
     from .common import mk_ragged, obs_ragged, outcome, typed, rows_of
     a = mk_ragged(RaggedArray, data, lens, dtype)
+    if preread is not None:
+        preread(a)          # the source is looked at before the selection is taken (whatever that caches must not reach the selection)
     d = view_step(a, pre, P)
     rows = ref_view_rows(rows_of(list(data), [int(l) for l in lens]), pre, P, conc=conc)
     f = RaggedArray(typed([c for r in rows for c in r], dtype), arr([len(r) for r in rows], "int64"))
